@@ -256,6 +256,27 @@ def generate(unit_dir, mustfail=False, mutate=None, variant=None, template='unit
         for st in lst:
             if st['kind'] == 'module':
                 mods.setdefault(st['module'], {})[st['qual']] = st
+    impls = {}
+    for lst in (auto_stubs or {}).values():
+        for st in lst:
+            if st['kind'] == 'impl':
+                impls.setdefault(st['type'], {})[st['qual']] = st
+    if impls:
+        k = max(n for n, l in enumerate(out) if l.startswith('fn main()'))
+        extra = []
+        for ty, sts in impls.items():
+            extra.append(('impl %s {' % ty) if plain else ('verus! { impl %s {' % ty))
+            for st in sts.values():
+                stxt = stub_text(st, plain).lstrip()
+                if stxt.startswith('#[verifier::external_body]'):
+                    first, rest = stxt.split('\n', 1)
+                    stxt = first + '\npub ' + rest.lstrip()
+                else:
+                    stxt = 'pub ' + stxt
+                extra.extend(stxt.split('\n'))
+                g.auto_stubbed.append(st['qual'])
+            extra.append('}' if plain else '} }')
+        out[k:k] = extra
     if mods:
         k = max(n for n, l in enumerate(out) if l.startswith('fn main()'))
         extra = []
@@ -368,11 +389,37 @@ def unresolved_callees(g, diags):
             if m1:
                 rf.find_fn(m1.group(1))
                 out.append((rec.qual, dict(kind='free', file=rec.file, qual=m1.group(1))))
-            elif m2 and '::' in rec.qual:
-                ty = rec.qual.split('::')[0].split(' as ')[0]
-                q = '%s::%s' % (ty, m2.group(1))
-                rf.find_fn(q)
-                out.append((rec.qual, dict(kind='method', file=rec.file, qual=q)))
+            elif m2:
+                tm = re.search(r'found for (?:struct|enum|reference|mutable reference) `&?(?:mut )?([A-Za-z0-9_:]+)', msg)
+                target = tm.group(1).split('::')[-1] if tm else None
+                own = rec.qual.split('::')[0].split(' as ')[0] if '::' in rec.qual else None
+                done = False
+                if own and (target is None or target == own):
+                    q = '%s::%s' % (own, m2.group(1))
+                    try:
+                        rf.find_fn(q)
+                        out.append((rec.qual, dict(kind='method', file=rec.file, qual=q)))
+                        done = True
+                    except ExtractError:
+                        pass
+                if not done and target:
+                    # a method of another (stubbed) type: look for it in the crate of the referencing file
+                    q = '%s::%s' % (target, m2.group(1))
+                    crate_src = rec.file.split('/src/')[0] + '/src'
+                    for root, _dirs, files in os.walk(os.path.join(REPO, crate_src)):
+                        for fn_ in sorted(files):
+                            if not fn_.endswith('.rs'):
+                                continue
+                            rel = os.path.relpath(os.path.join(root, fn_), REPO)
+                            try:
+                                load(rel).find_fn(q)
+                            except ExtractError:
+                                continue
+                            out.append((rec.qual, dict(kind='impl', type=target, file=rel, qual=q)))
+                            done = True
+                            break
+                        if done:
+                            break
             elif m3:
                 mod = m3.group(1)
                 src = lines[ln - 1]
